@@ -242,6 +242,20 @@ def list_method(interp, lst, name, args, kwargs):
         rv = to_bool(ctx, reverse)
         rv = z3.BoolVal(rv) if isinstance(rv, bool) else rv
         key = kwargs.get("key")
+        if key is not None and not isinstance(lst, SRows) and lst.seq is None:
+            # concrete list of fixed-width tuples of user values: view it as symbolic rows (one Seq per column)
+            if not lst.items:
+                return None
+            if all(isinstance(x, tuple) and len(x) == len(lst.items[0]) and all(isinstance(y, Opaque) for y in x) for x in lst.items):
+                k = len(lst.items[0])
+                cols = []
+                for j in range(k):
+                    us = [z3.Unit(x[j].t) for x in lst.items]
+                    cols.append(us[0] if len(us) == 1 else z3.Concat(*us))
+                lst.__class__ = SRows
+                lst.cols = cols
+                lst.seq = cols[0]
+                lst.items = None
         if isinstance(lst, SRows):
             if key is None:
                 raise Unsupported("sort of tuple rows without key")
